@@ -14,7 +14,8 @@ RULE = ('geometry recipes (gens/geo.py): rectangular (drawn spacings, origins up
         'inside any layer (incl. the bottom one) and above the top; with and without a bijective block-name map. '
         'Oracle: independent enumeration of blocks and connections from public geometry attributes and independent '
         'geometry (exact-rational shoelace area, perpendicular distance by cross product). '
-        'Non-trivial = at least one truncated or extended surface block, or a non-rectangular mesh; distinct = recipe JSON.')
+        'Non-trivial = at least one truncated or extended surface block, or a non-rectangular mesh; distinct = recipe JSON.'
+        ' Also: convert - translate / rotate the same geometry object - convert again (second grid judged against the geometry as it then is).')
 ASSUMPTIONS = ['untilted geometries (gdcx = gdcy = None), as in the statement\'s -1 clause',
                'every column surface lies above the bottom of the model',
                'relative tolerance 1e-9 (1e-7 for areas of columns with 7-digit coordinates, where the library\'s float shoelace is the less exact side)']
